@@ -739,7 +739,9 @@ func (s *levelsController) subcompact(it y.Iterator, kr keyRange, cd compactDef,
 		var tableKr keyRange
 		for ; it.Valid(); it.Next() {
 			// See if we need to skip the prefix.
-			if len(cd.dropPrefixes) > 0 && hasAnyPrefixes(it.Key(), cd.dropPrefixes) {
+			// The prefixes are prefixes of user keys: compare without the 8 byte version suffix,
+			// whose bytes would otherwise extend a shorter key into the dropped prefix.
+			if len(cd.dropPrefixes) > 0 && hasAnyPrefixes(y.ParseKey(it.Key()), cd.dropPrefixes) {
 				numSkips++
 				updateStats(it.Value())
 				continue
@@ -923,8 +925,8 @@ func (s *levelsController) compactBuildTables(
 
 	keepTable := func(t *table.Table) bool {
 		for _, prefix := range cd.dropPrefixes {
-			if bytes.HasPrefix(t.Smallest(), prefix) &&
-				bytes.HasPrefix(t.Biggest(), prefix) {
+			if bytes.HasPrefix(y.ParseKey(t.Smallest()), prefix) &&
+				bytes.HasPrefix(y.ParseKey(t.Biggest()), prefix) {
 				// All the keys in this table have the dropPrefix. So, this
 				// table does not need to be in the iterator and can be
 				// dropped immediately.
